@@ -435,6 +435,17 @@ def _join_laws():
                          B.subset(B.fv(p), B.union(P, B.rcols(F))))
             return B.implies(hyp, B.eq(B.proj(B.union(P, B.rcols(F)), J(B, p, K, X, F)), J(B, p, K, B.proj(P, X), F)))
 
+        # the same without the blanket no-shadow hypothesis: only columns *hidden* by the projection matter, and only
+        # when the projected operand is on the right (the right operand's values win in the merged row)
+        @law(f"join-proj-{side}-hidden", "T2", "p:Pred K:TagSet P:TagSet X:RS F:RS",
+             lambda B, p, K, P, X, F, J=J: [B.proj(B.union(P, B.rcols(F)), J(B, p, K, X, F)), J(B, p, K, B.proj(P, X), F)],
+             status="assumed, bounded-checked (added for the SQL engine; no Lean proof yet)")
+        def _(B, p, K, P, X, F, J=J, side=side):
+            hyp = B.and_(B.subset(P, B.rcols(X)), B.subset(K, P), B.subset(K, B.rcols(F)), B.subset(B.fv(p), B.union(P, B.rcols(F))))
+            if side == "l":  # X is the right operand
+                hyp = B.and_(hyp, B.subset(B.inter(B.rcols(X), B.rcols(F)), P))
+            return B.implies(hyp, B.eq(B.proj(B.union(P, B.rcols(F)), J(B, p, K, X, F)), J(B, p, K, B.proj(P, X), F)))
+
     # sorting commutes only when the sorted operand drives the outer loop (fixed operand on the right)
     @law("join-sort-r", "T3", "p:Pred K:TagSet ts:Terms X:RS F:RS",
          lambda B, p, K, ts, X, F: [B.sort(ts, B.join(p, K, X, F)), B.join(p, K, B.sort(ts, X), F)])
